@@ -9,7 +9,12 @@ files = [os.path.join(ROOT, "units", u + ".rs") for u in sys.argv[1:]] or sorted
 for f in files:
     out, ch = [], 0
     for ln in open(f).read().split("\n"):
-        if ln.strip().startswith("//@pin"):
+        if ln.strip().startswith("//@pinfile"):
+            kv = gen._parse_kv(ln.strip()[len("//@pinfile"):])
+            new = re.sub(r"\s+sha=\S+", "", ln) + " sha=" + gen.file_hash(kv["file"])
+            ch += new != ln
+            ln = new
+        elif ln.strip().startswith("//@pin"):
             kv = gen._parse_kv(ln.strip()[len("//@pin"):])
             h = gen.pin_hash(kv["file"], kv["fn"], int(kv.get("nth", 1)))
             new = re.sub(r"\s+sha=\S+", "", ln) + " sha=" + h
